@@ -770,6 +770,17 @@ add({"name": "dfs_main_tail", "file": "dfs/main.cc",
                (r'std::cerr << "error: failed to write to standard output\\n";', "g_diag++;", 1)],
      "dropped": ["diagnostic text"]})
 
+add({"name": "dfs_main_help", "file": "dfs/main.cc",
+     "anchor": r"DFS::CommandHelp help;", "region_end": r"\}\s*\}\s*\}\s*if \(optind == argc\)",
+     "sig": "static int dfs_main_help(void)",
+     "pre": "#define cout_ (&cout_obj)\n", "post": "#undef cout_\n",
+     "rules": [(r"DFS::CommandHelp help;", "/* CommandHelp help */", 1),
+               (r"help\.invoke\(storage, ctx, extra_args\)", "command_invoke(cout_)", 1),
+               (r"std::cout\.flush\(\);", "os_flush(cout_);", ">=0"),
+               (r"if \(!std::cout\)", "if (cout_->bad)", ">=0"),
+               (r'std::cerr << "error: failed to write to standard output\\n";', "g_diag++;", ">=0")],
+     "dropped": ["diagnostic text"]})
+
 # ---- img_gzfile.cc (C10): the inflate loop of write_decompressed_data and check_zlib_error_code ---------------------
 THROW_ANY = (r"throw [A-Za-z_:]+\((?:[^()]|\([^()]*\))*\);", "{ VERIF_THROW(Other, 0); return; }")
 add({"name": "check_zlib_error_code", "file": "dfs/img_gzfile.cc", "anchor": r"void check_zlib_error_code\(int zerr\)",
@@ -860,6 +871,15 @@ add({"name": "afsp_assemble", "file": "dfs/afsp.cc", "anchor": r"string drive, d
                (r"out->clear\(\);", "out_clear();", 1), (r"out->reserve\([^;]*\);", "/* reserve dropped */", "=0or1"),
                (r"out->append\((\w+)\);", r"out_append(\1);", ">=1")],
      "dropped": ["error text"]})
+
+# ---- img_fileio.cc / img_gzfile.cc (C12: "never alters an image ... all other commands create no files"): how image files are opened
+add({"name": "OsFile_open", "file": "dfs/img_fileio.cc", "anchor": r": file_name_\(name\), f_\(name, ", "region_end": r"\)\s*\{\s*if \(f_\.fail\(\)\)",
+     "sig": "static void OsFile_open(void)",
+     "rules": [(r"std::ifstream::(\w+)", r"IOS_\1", ">=1"), (r"std::(?:ios|ios_base|fstream|ofstream)::(\w+)", r"IOS_\1", ">=0"),
+               (r"^: file_name_\(name\), f_\(name,\s*(.*)$", r"ifstream_open_model(\1);", 1)]})
+add({"name": "gz_open_input", "file": "dfs/img_gzfile.cc", "anchor": r"FILE \*f = fopen\(name\.c_str\(\), ", "region_end": r";",
+     "sig": "static void gz_open_input(void)",
+     "rules": [(r"^FILE \*f = fopen\(name\.c_str\(\),\s*(.*)\)$", r"fopen_model(\1);", 1)]})
 
 # ---- fsp.cc (C15: `type`/`list`/`dump` find a file by :drive.dir.name): the directory/name split of parse_filename --------
 add({"name": "parse_dir_and_name", "file": "dfs/fsp.cc",
